@@ -2,6 +2,9 @@ package mon
 
 import (
 	"fmt"
+	"github.com/xjslang/xjs/lexer"
+	"github.com/xjslang/xjs/parser"
+	"github.com/xjslang/xjs/token"
 	"math/rand/v2"
 	"strings"
 
@@ -46,14 +49,39 @@ func checkLiterals(t *fw.T, lits []litCase, label string) {
 		pretty  string
 	}
 	var jobs []job
+	// every third group of cases goes through a lexer plugin: the literal is preceded by a marker character that a token
+	// interceptor consumes (ReadChar) before it hands over to next() - the literal is lexed by the lexer's own scanners,
+	// but the token does not start where token scanning started
+	plugged := (t.Index/16)%3 == 1
+	if plugged {
+		t.Count("batches_lexed_behind_a_plugin_consumed_marker", 1)
+	}
 	for _, lc := range lits {
 		src := lc.program()
+		if plugged {
+			m := lc
+			m.text = "@" + lc.text
+			src = m.program()
+		}
 		var po ParseOut
 		var c, p string
 		ok := t.Guard("parse/compile literal", func() map[string]any {
 			return map[string]any{"literal": lc.text, "literal_quoted": fmt.Sprintf("%q", lc.text)}
 		}, func() {
-			po = parse(src, Mode{})
+			if plugged {
+				lb := lexer.NewBuilder()
+				lb.UseTokenInterceptor(func(l *lexer.Lexer, next func() token.Token) token.Token {
+					if l.CurrentChar == '@' {
+						l.ReadChar()
+					}
+					return next()
+				})
+				pp := parser.NewBuilder(lb).Build(src)
+				prog, err := pp.ParseProgram()
+				po = ParseOut{Prog: prog, Err: err, Errors: pp.Errors()}
+			} else {
+				po = parse(src, Mode{})
+			}
 			if po.Err == nil {
 				if (t.Index/16)%2 == 1 {
 					// long-lived Compiler values: one literal after the other through the same compilers
